@@ -68,6 +68,7 @@ type Contract struct {
 	Wraps    bool
 	NoAlias  bool
 	Pure     bool
+	NoAlloc  bool // the callee allocates nothing that the caller can observe
 	Asserts  map[string]Clause
 	File     string
 	Line     int
@@ -75,6 +76,7 @@ type Contract struct {
 }
 
 type TypeOverride struct {
+	Mode   string // "" = always; otherwise only in functions verified in this mode (e.g. "ring")
 	Fields []string
 	Sorts  []*Sort
 }
@@ -169,6 +171,10 @@ func (db *ContractDB) loadFile(fn string) error {
 			}
 			to := &TypeOverride{}
 			for _, fs := range strings.Fields(parts[1]) {
+				if strings.HasPrefix(fs, "@") {
+					to.Mode = fs[1:]
+					continue
+				}
 				kv := strings.SplitN(fs, ":", 2)
 				if len(kv) != 2 {
 					return fmt.Errorf("%s:%d: bad type override field %q", fn, ln, fs)
@@ -312,6 +318,8 @@ func (db *ContractDB) loadFile(fn string) error {
 				cur.Trusted = true
 			case "pure":
 				cur.Pure = true
+			case "noalloc":
+				cur.NoAlloc = true
 			case "panics":
 				cur.PanicsOK = rest == "ok"
 			case "safety":
